@@ -48,32 +48,98 @@ META = {
     'C19': dict(
         engine='E2 writer/crash-sim', design_ref='DESIGN.md §3/C19',
         technique='deterministic simulation with fault injection: seeded write partitions, ragged-write faults and process-kill snapshots at every operation boundary against an accepted-frames model',
-        rule='', components={}, expected_probes=[], level_text='', level_note='', assumptions=COMMON_ASSUMPTIONS,
+        rule='one evaluation = one seeded run on one streaming writer (h5 incl. append re-open, nc, dcd, xtc, trr, mdcrd, xyz, lammpstrj, gro, pdb models, dtr; with/without cell and time): '
+             'the first runs enumerate EVERY ordered partition of n frames into write calls for n <= 5 (quick) / 8 (thorough) per format and cell option, the rest are random histories of '
+             '{write(k), flush, h5 re-open in append mode, ragged write (changed atom count / added or dropped cell / added or dropped time)}. After every operation the durable state is '
+             'snapshotted through a second descriptor (= what survives SIGKILL of the writer) and, for h5/nc/dcd/xtc, loaded and compared with the flushed frames; after close the file must '
+             'load with exactly the accepted frames and bit-identically to a sibling written in one call. distinct_nontrivial = distinct abstract traces (format, op, size class, schema, mode).',
+        components={'real': ['mdtraj streaming writers and loaders rebuilt from the working tree', 'PyTables/HDF5', 'netCDF4', 'xdrfile/dcdplugin stdio', 'file system (tmpfs)'],
+                    'stub': ['process kill = copy of the file through a second descriptor at the operation boundary (cross-checked in the thorough tier against children that SIGKILL themselves)'],
+                    'not_run': ['mdtraj.reporters classes (OpenMM not installed): their write-then-flush protocol is reproduced by the harness']},
+        expected_probes=['crash_with_unflushed_tail', 'multi_call_vs_one_shot_compared', 'h5_reopen_append'],
+        level_text='Exhaustive over ordered partitions up to the stated bound, seeded exploration beyond it; every crash point between operations of every explored history is judged '
+                   '(flushed prefix must be recoverable, flushed-and-quiescent files must load exactly).',
+        level_note='No disk-failure faults (ENOSPC/EIO/short writes): C19 promises nothing under a failing disk. XTC/TRR default times restarting per write() are open known findings (pyx).',
+        assumptions=COMMON_ASSUMPTIONS + ['what another descriptor reads at an operation boundary is exactly what a SIGKILL of the writing process leaves (user-space buffers lost, kernel page cache kept)'],
     ),
     'C20': dict(
         engine='E3 fs-sim', design_ref='DESIGN.md §3/C20',
         technique='deterministic simulation: seeded save/open/read histories over a scratch tree against a path->bytes model with pinned clocks',
-        rule='', components={}, expected_probes=[], level_text='', level_note='', assumptions=COMMON_ASSUMPTIONS,
+        rule='one evaluation = one seeded run over a scratch tree with 1-3 paths (18 extensions) and pre-existing content (absent / shorter valid / longer valid / empty / unrelated bytes / '
+             'numbered restart files / dtr directory): 3-14 operations {Trajectory.save single/multi-frame, md.open(mode=w)+write+close, read entry points} with force_overwrite True/False. '
+             'The whole tree is snapshotted (type, size, sha256, mtime_ns, inode) before and after every operation: refused => every pre-existing entry byte-identical; overwritten => target '
+             'byte-identical to the same call at a fresh path (fallback size+loaded content where a writer embeds bytes we cannot pin, e.g. uninitialised DCD remark padding); reads => tree identical '
+             'including mtime and inode. distinct_nontrivial = distinct abstract traces (extension, op, overwrite flag, frames, pre-state, outcome). schedules: none; histories over a shared tree.',
+        components={'real': ['Trajectory.save / md.open / loaders for 18 extensions rebuilt from the working tree', 'file system (tmpfs)'],
+                    'stub': ['wall clock / host name embedded by writers: netcdf title, xyz comment date, gzip mtime (module-attribute fakes), DCD remark (time() linked into the rebuilt dcd extension)'],
+                    'not_run': ['lh5 (writer broken in the baseline)', 'gsd (package not installed)']},
+        expected_probes=['overwrite_checked_against_fresh', 'overwrote_longer_file', 'fresh_compare_bytes_equal', 'open_w_overwrite_checked_against_fresh'],
+        level_text='Seeded exploration of file-system histories; the oracle is a complete before/after model of the tree, so any modification of an existing entry, any remnant and any side effect of a read is visible.',
+        level_note='Higher-numbered restart files left by an earlier longer save are other paths and are not judged; handles opened for write and closed without a write are not judged for replacement.',
+        assumptions=COMMON_ASSUMPTIONS + ['with the pinned clocks every writer is a deterministic function of the trajectory, except the DCD header remark padding (uninitialised stack bytes), for which size+content equality is used'],
     ),
     'C03': dict(
         engine='E4a object-history-sim', design_ref='DESIGN.md §3/C03',
-        technique='deterministic simulation: seeded operation histories over a pool of live trajectories with numpy reference models and injected scribbles',
-        rule='', components={}, expected_probes=[], level_text='', level_note='', assumptions=COMMON_ASSUMPTIONS,
+        technique='deterministic simulation: seeded operation histories over a pool of live trajectories with numpy reference models, injected scribbles and topology edits',
+        rule='one evaluation = one seeded history of 5-25 (thorough 40) operations over a pool of <= 6 live Trajectory objects (protein-like topology with water, frames scaled differently), each paired '
+             'with a numpy model: t[key] for int/negative int/slice/reversed/stepped slice/index array/bool mask, slice(copy=False) views, join/+/md.join, stack, atom_slice and remove_solvent '
+             '(inplace or not), center_coordinates, superpose, xyz/time/cell assignment, observers (rmsd with and without the precentered shortcut, save, analysis calls) and injected faults '
+             '(scribble into one array, rename an atom) that must not reach any other pool member. After every step every member is compared with its model; every derived object is checked for '
+             'shared memory; rmsd(precentered=True) is compared with the from-scratch value on independent copies; a final sweep applies that observer to every pool member. '
+             'distinct_nontrivial = distinct abstract traces (op, key kind, cache state, cell completeness).',
+        components={'real': ['mdtraj.Trajectory, Topology, _rmsd kernels, savers and analysis functions rebuilt from the working tree'], 'stub': ['scheduler (which pool member and operation comes next)']},
+        expected_probes=['cache_present_at_slice', 'precentered_shortcut_taken', 'final_sweep_shortcut_taken', 'cache_present_at_inplace_atom_slice', 'view_checked_and_dropped'],
+        level_text='Seeded exploration of operation histories with a step-by-step reference model; staleness of the hidden RMSD-trace cache is observed only through the public rmsd(precentered=True) result.',
+        level_note='User in-place writes into t.xyz[...] are outside the operation set (documented unsafe); stack may share time/cell arrays with its left operand (allowed by the statement).',
+        assumptions=COMMON_ASSUMPTIONS + ['documented in-place operations (rmsd without atom_indices centres target and reference frame, center_coordinates, superpose(self), inplace=True variants) are mirrored in the model'],
     ),
     'C17': dict(
         engine='E4a object-history-sim', design_ref='DESIGN.md §3/C17',
         technique='deterministic simulation: seeded unit-cell assignment/transformation histories; conversion clause evaluated on every reached cell',
-        rule='', components={}, expected_probes=[], level_text='', level_note='', assumptions=COMMON_ASSUMPTIONS,
+        rule='one evaluation = one seeded history over the same pool machine as C03 with a cell-focused operation mix: unitcell_vectors = V / R.V for a seeded rotation / None / zeros, '
+             'unitcell_lengths = L / None, unitcell_angles = A / None in every order (half-set cells are reached), slicing, join, stack, atom_slice, save+load through the formats that store a cell. '
+             'Cells come from {cubic, orthorhombic, monoclinic, hexagonal 60/120, truncated octahedron, rhombic dodecahedron, random triclinic, near-degenerate}, per-frame varying. '
+             'After every step: vectors is None <=> lengths or angles missing; results have a complete per-frame cell exactly when the input had; on every complete cell the vectors have the stored lengths and '
+             'angles (alpha between b,c; beta between c,a; gamma between a,b), standard orientation, positive volume, volumes = triple product = analytic value. '
+             'The conversion clause is a pure function of the cell: for it this check is configuration sampling riding on the history machine, not a schedule/fault search.',
+        components={'real': ['mdtraj.Trajectory cell properties, mdtraj.utils.unitcell, savers/loaders rebuilt from the working tree'], 'stub': ['scheduler']},
+        expected_probes=['half_set_cell_reached', 'cell_conversion_checked', 'rotated_vectors_assigned', 'vectors_zero_assignment'],
+        level_text='Seeded exploration of cell assignment histories (history clause) plus evaluation of the conversion clause on every cell those histories reach.',
+        level_note='Whether a writer refuses a half-set cell or silently writes none is not judged (both satisfy the statement).',
+        assumptions=COMMON_ASSUMPTIONS + ['float32-sized tolerances: lengths 3e-5 relative, angles 0.02 degree, volumes 1e-4 relative (2e-3 against the analytic formula)'],
     ),
     'C04': dict(
         engine='E4b topology-history-sim', design_ref='DESIGN.md §3/C04',
         technique='deterministic simulation: seeded transformation and edit histories over a pool of topologies with plain-data models',
-        rule='', components={}, expected_probes=[], level_text='', level_note='', assumptions=COMMON_ASSUMPTIONS,
+        rule='one evaluation = one seeded history of 4-22 (thorough 34) operations over a pool of <= 6 live Topology objects (multi-chain with repeated/None chain ids, repeated/zero/negative resSeq, '
+             'non-contiguous serials, virtual sites, typed and ordered bonds across residues and chains), each paired with a plain-data model: copy / copy.copy / deepcopy / pickle / subset / join / '
+             'Trajectory slice, atom_slice, stack / to_dataframe+from_dataframe / save+load through .h5 and .pdb, interleaved with edits injected on either side (renames, add_bond, add_atom, '
+             'insert_atom, delete_atom_by_index, add_residue, add_chain) and ==/hash law checks. After every step EVERY pool member is re-extracted and compared with its model and checked for '
+             'structural consistency (contiguous indices, every bond end is an atom of this topology). Carrier round trips are compared attribute by attribute; losses inside the measured '
+             'carrier limits of that input are classified expect=limit (open known findings), anything else expect=kept (violation). distinct_nontrivial = distinct abstract traces (op, mode).',
+        components={'real': ['mdtraj.Topology and friends, HDF5 topology JSON, PDB writer/reader, pandas conversion, rebuilt/copied from the working tree'], 'stub': ['scheduler']},
+        expected_probes=['proper_subset', 'subset_emptied_a_residue', 'subset_emptied_a_chain', 'deleted_atom_had_bonds', 'equal_pair_checked'],
+        level_text='Seeded exploration of transformation/edit histories against a trivial data model; independence of copies is decided by re-comparing all pool members after each injected edit.',
+        level_note='Bond type/order are dropped for the h5 and pdb carriers (the formats cannot hold them, which the statement allows).',
+        assumptions=COMMON_ASSUMPTIONS + ['carrier limit table (simlib/engines/e4b_top.py carrier_limits) is part of the trusted base and is printed with every carrier finding'],
     ),
     'C08': dict(
         engine='E5 omp-sim', design_ref='DESIGN.md §3/C08, Appendix A',
         technique='deterministic simulation of the OpenMP team: link-time replacement of libgomp with a seeded baton scheduler, basic-block yield points, frame-schedule permutations',
-        rule='', components={}, expected_probes=[], level_text='', level_note='', assumptions=COMMON_ASSUMPTIONS,
+        rule='one evaluation = one seeded run: a protein fragment trajectory (4-9 residues of 2EQQ, 1-12 frames scaled differently, optional cell), 3-6 of 33 per-frame analyses '
+             '(distances, displacements, angles, dihedrals, phi/psi/chi1, rmsd parallel/serial/precentered/atom subset, lprmsd, centring, superposition, SASA atom/residue, DSSP, Kabsch-Sander, '
+             'Wernet-Nilsson, neighbours, neighbour list, contacts, DRID, Rg, centre of mass, gyration/inertia tensors, principal moments; rmsf for the thread clause only). The five extensions that '
+             'import libgomp run under csrc/simgomp.c: 2-4 sampled (team size in {1,2,3,5,8,16,n_frames+3}, per-yield switch probability in {0,1e-8..1e-4}, scheduler seed) schedules must give '
+             'results bit-identical to team size 1 and to a repetition; frame contexts {each frame alone, permutation, sub-selection, repetition, split into consecutive calls} must give for frame i '
+             'the value of f(traj[i])[0] (bit-exact for compiled per-frame kernels, 1e-5/1e-11 relative for numpy reductions over the frame axis). Every evaluation gets fresh input copies. '
+             'distinct_nontrivial = distinct abstract traces (function, clause, team, switching on/off, team<frames).',
+        components={'real': ['all mdtraj kernels (sasa.cpp, geometry.cpp, dssp.cpp, neighborlist.cpp, center/theobald/rotation, Cython prange bodies of _rmsd and drid) recompiled from the working tree', 'Python wrappers'],
+                    'stub': ['OpenMP runtime: GOMP_parallel, GOMP_barrier, omp_get_num_threads, omp_get_thread_num (csrc/simgomp.c); yield points from -fsanitize-coverage=trace-pc on the hand-written kernel files']},
+        expected_probes=['parallel_region_entered', 'thread_handles_two_frames', 'team_larger_than_frames', 'switch_inside_region', 'barrier_reached'],
+        level_text='Seeded exploration of team sizes, thread interleavings (at basic-block granularity in the hand-written kernels, kernel-call granularity in Cython prange bodies) and frame schedules; '
+                   'one seed is one exactly repeatable interleaving (trace hash in the run log).',
+        level_note='All loops are schedule(static), so OMP_SCHEDULE has no effect and is not sampled; races inside one basic block are not reachable (TSan territory).',
+        assumptions=COMMON_ASSUMPTIONS + ['gcc lowers the static schedule inline from omp_get_num_threads/omp_get_thread_num; the build fails if an extension imports any other GOMP/omp symbol'],
     ),
 }
 
